@@ -51,7 +51,7 @@ def check(ctx):
             sv = Inst(fc, {"bounds": Inst(bc, {}, "self.bounds")}, "self")
             bound = x.symbolic_args(m)
             bound.update(args or {})
-            return x._exec_function(m, bound, sv, None, fc)
+            return x.enter(m, bound, sv, None, fc)
 
         return m, it_.explore(run)
 
@@ -80,7 +80,7 @@ def check(ctx):
 
     def run_fit(x):
         sv = Inst(fc, {"bounds": Inst(bc, {}, "self.bounds")}, "self")
-        x._exec_function(m, x.symbolic_args(m), sv, None, fc)
+        x.enter(m, x.symbolic_args(m), sv, None, fc)
         # evaluate the fitted model the way curve_fit does - f(x, *params) with one parameter per entry of the
         # first guess - inside the same trace partition, so that its branches agree with fit()'s own
         cfe = [e for e in x.events if e.kind == "ext_call" and e.data["callee"] == "scipy.optimize.curve_fit"]
@@ -195,7 +195,7 @@ def check(ctx):
     it = interp(ctx)
 
     def runp(x):
-        return x._exec_function(post, {}, Inst(bc, {}, "self"), None, bc)
+        return x.enter(post, {}, Inst(bc, {}, "self"), None, bc)
 
     paths = it.explore(runp)
     raised = set()
@@ -214,7 +214,7 @@ def check(ctx):
         names = ["@g0", "@g1"][:n]
 
         def runr(x, n=n, names=names):
-            return x._exec_function(reg, {"guess": TupV([Num(nf.sym(s)) for s in names], True)}, Inst(bc, {}, "self"), None, bc)
+            return x.enter(reg, {"guess": TupV([Num(nf.sym(s)) for s in names], True)}, Inst(bc, {}, "self"), None, bc)
 
         bad = []
         npaths = 0
